@@ -1184,6 +1184,55 @@ mut("C06", "pids-swap-remove", "R06-6|shell::Shell::remove_pid_from_job|order|sw
     "a finished pid is removed with swap_remove",
     (S, "x.pids.remove(i_pid);", "x.pids.swap_remove(i_pid);"))
 
+mut("C09", "set-env-updates-shell-copy-first", "R09-5|shell::Shell::set_env|shell-map-write-unguarded",
+    "set_env updates an existing shell variable in place before asking whether the name is exported",
+    (S, """    pub fn set_env(&mut self, name: &str, value: &str) {
+""", """    pub fn set_env(&mut self, name: &str, value: &str) {
+        if let Some(v) = self.envs.get_mut(name) {
+            *v = value.to_string();
+            return;
+        }
+"""))
+mut("C12", "basename-via-file-name", "R12-9|libs::path::basename|textual", "basename uses Path::file_name()",
+    ("src/libs/path.rs", """    let mut pieces = path.rsplit('/');
+    match pieces.next() {
+        Some(p) => p.into(),
+        None => path.into(),
+    }""", """    match std::path::Path::new(path).file_name() {
+        Some(p) => p.to_string_lossy(),
+        None => path.into(),
+    }"""))
+ref("basename-rfind", ["C12"], "basename written with rfind('/')",
+    ("src/libs/path.rs", """    let mut pieces = path.rsplit('/');
+    match pieces.next() {
+        Some(p) => p.into(),
+        None => path.into(),
+    }""", """    match path.rfind('/') {
+        Some(i) => path[i + 1..].into(),
+        None => path.into(),
+    }"""))
+mut("C08", "redirect-target-dup", "R08-6|tools::create_raw_fd_from_file|not-cloexec",
+    "a target of the form &N yields dup(N)",
+    (TL, """pub fn create_raw_fd_from_file(file_name: &str, append: bool) -> Result<i32, String> {
+""", """pub fn create_raw_fd_from_file(file_name: &str, append: bool) -> Result<i32, String> {
+    if file_name == "&2" {
+        let fd = unsafe { libc::dup(2) };
+        if fd >= 0 {
+            return Ok(fd);
+        }
+    }
+"""))
+
+mut("C11", "capture-read-capped", "R11-10|core::run_single_program|read-to-eof#0",
+    "the captured stdout is read through take(N)",
+    (C, """                        let mut f = File::from_raw_fd(fds.0);
+                        match f.read_to_string(&mut s_out) {""", """                        let f = File::from_raw_fd(fds.0);
+                        match f.take(131072).read_to_string(&mut s_out) {"""))
+ref("capture-read-bufreader", ["C11", "C08", "C02"], "the captured stdout is read through a BufReader",
+    (C, """                        let mut f = File::from_raw_fd(fds.0);
+                        match f.read_to_string(&mut s_out) {""", """                        let mut f = std::io::BufReader::new(File::from_raw_fd(fds.0));
+                        match f.read_to_string(&mut s_out) {"""))
+
 # ------------------------------------------------------------------ more refactors
 ref("history-params-vec", ["C18"], "bind the INSERT parameters through a params! style slice",
     (H, "    match conn.execute(&sql, [line.trim(), info.as_str()]) {",
